@@ -1003,5 +1003,12 @@ PROPERTY = Property(
         "the process runs as root: the read-only file (mode 0444) is writable, so 'read-only files' are exercised only as a mode "
         "that must be preserved",
         "Git is the only VCS installed",
+        "tree flavour dl (`.reuse/dep5` or `.reuse` a symbolic link) is oracle-only: the model's convert-dep5 reads a regular file. Where `.reuse` "
+        "itself links to a directory outside the project the ENTRY `.reuse/dep5` lives outside; its removal by convert-dep5 is the one change "
+        "tolerated there (the property text does not say what should happen instead)",
+        "tree flavour odd: names that are not valid UTF-8 are given to Git-ignored files and directories only; covered files (and files named on "
+        "the command line) carry unusual but valid names, because the tool prints the names of the files it handles and the in-process runner's "
+        "output stream is strict UTF-8 (a matter of C16). On the unrepaired tree every command over a tree with an ignored non-UTF-8 name ends in "
+        "UnicodeDecodeError (fixes/vcs-paths-fsdecode.diff, `fixed` entry): the check's green state depends on that repair",
     ],
 )
